@@ -132,6 +132,13 @@ def in_child(fn, *args, timeout=120, environ=None):
                 dn = os.open(os.devnull, os.O_WRONLY)     # eups chatters on stdout/stderr
                 os.dup2(dn, 1)
                 os.dup2(dn, 2)
+            covdir = os.environ.get("EUPS_VERIF_COVERAGE")      # tools/coverage_report.py: which lines of /repo ran
+            cov = None
+            if covdir:
+                import coverage
+                cov = coverage.Coverage(data_file=os.path.join(covdir, ".coverage"), data_suffix=True,
+                                        include=[os.path.join(REPO, "python", "eups", "*")])
+                cov.start()
             if environ is not None:
                 os.environ.clear()
                 os.environ.update(environ)
@@ -139,6 +146,9 @@ def in_child(fn, *args, timeout=120, environ=None):
                 res = ("ok", fn(*args))
             except BaseException as e:  # noqa
                 res = ("exc", type(e).__name__, str(e)[:2000], traceback.format_exc()[-3000:])
+            if cov is not None:
+                cov.stop()
+                cov.save()
             data = json.dumps(res).encode()
             with os.fdopen(w, "wb") as f:
                 f.write(data)
